@@ -19,6 +19,7 @@ type PropConfig struct {
 	OnlyTagged  bool     `json:"only_tagged,omitempty"` // count only clauses tagged with this property id
 	AlsoTags    []string `json:"also_tags,omitempty"`   // clauses tagged with these property ids count too (the property depends on them)
 	TaggedOnly  []string `json:"tagged_only_functions,omitempty"` // functions of which only the clauses tagged with this property id are claimed (their zero-annotation safety obligations are not all discharged)
+	FramesOnly  []string `json:"frames_only_functions,omitempty"` // functions of which only the frame obligations (what they may modify) and the clauses tagged with this property id are claimed
 	Kinds       []string `json:"kinds,omitempty"`       // restrict to obligation kinds with these prefixes
 	Analyses    []AnalysisSpec `json:"analyses,omitempty"` // solver-free inventory analyses over the SSA call graph
 	Assumptions []string `json:"assumptions"`
@@ -196,8 +197,12 @@ func cmdCheck(args []string) int {
 		}
 		var keep []*Obligation
 		taggedOnly := inList(pc.TaggedOnly, r.Fn)
+		framesOnly := inList(pc.FramesOnly, r.Fn)
 		for _, o := range r.Obls {
 			if taggedOnly && !o.Cover && !inList(o.Tags, id) {
+				continue
+			}
+			if framesOnly && !o.Cover && !inList(o.Tags, id) && !strings.HasPrefix(o.Name, "frame/") && !strings.Contains(o.Name, "/frame-") {
 				continue
 			}
 			if !hasTag(o, id) {
